@@ -58,6 +58,9 @@ def oracle(case, res):
     want = spec_frames(start, end, fault)
     if res["status"] == "hang":
         return f"hang: a thread did not reach its next queue/read point within {S.WATCHDOG_S}s (stuck: {res['stuck']})"
+    if res["status"] == "livelock":
+        return (f"livelock: more than {S.MAX_STEPS} scheduling steps without the run ending (the proved bound is "
+                f"4(end-start)+8); threads still live: {res['stuck']}")
     if "C" in res["errors"]:
         return f"exception escaped the consumer loop: {res['errors']['C']}"
     # (an exception escaping the READER thread is not by itself against the property, as long as
@@ -382,16 +385,34 @@ def check(run: core.Run) -> int:
     n_by_cfg = {}
     hangs = 0
     cfgs = exhaustive_configs(run.tier)
+    # budgets: the unchanged code needs <= ~60 schedules per configuration and ~20 s in all; code that
+    # polls (timed put/get) multiplies the choice points, so cap the work and say so in the evidence
+    budget_s = 900 if run.tier == "thorough" else 150
+    cap_per_cfg = 5000 if run.tier == "thorough" else 600
+    capped, failing_cfgs, out_of_time = 0, 0, False
     for case in cfgs:
         k = 0
-        for w, r in explore(case):
+        for w, r in explore(case, limit=cap_per_cfg):
             records.append((case, w, "P", r, True))
             k += 1
             hangs += r["status"] == "hang"
+            if r["status"] != "ok" or "C" in r["errors"]:
+                failing_cfgs += 1
+        capped += k >= cap_per_cfg
         n_by_cfg[json.dumps(case, sort_keys=True)] = k
         if hangs >= 2:
             run.notes.append("exploration cut short after two hangs (each costs a watchdog period)")
             break
+        if failing_cfgs >= 8:
+            run.notes.append("exploration stopped after failing executions in 8 configurations")
+            break
+        if time.time() - t0 > budget_s:
+            out_of_time = True
+            run.notes.append(f"exhaustive exploration stopped after {budget_s}s: {len(n_by_cfg)} of {len(cfgs)} configurations done")
+            break
+    if capped:
+        run.notes.append(f"{capped} configurations reached the cap of {cap_per_cfg} schedules (not exhausted)")
+    run.coverage["exhaustive_complete"] = not (capped or out_of_time or hangs >= 2 or failing_cfgs >= 8)
     n_exh = len(records)
     t_exh = time.time() - t0
     # known-finding corpus (none for C13) and sampled larger configurations
